@@ -224,6 +224,11 @@ func cmdCheck(args []string) int {
 					claimed = true
 				}
 			}
+			for _, ac := range fc.AtCalls {
+				if hasTag(ac.Cl.Tags, *prop) {
+					claimed = true
+				}
+			}
 		}
 		if !claimed {
 			continue
@@ -251,6 +256,11 @@ func cmdCheck(args []string) int {
 		scanOnly := (!hasTag(vc.fc.Tags, *prop) && !(len(vc.fc.Tags) > 0 && hasTag(strings.Fields(vc.fc.Options["safety-tags"]), *prop))) || *prop == "C19"
 		for _, cl := range vc.fc.Ensures {
 			if hasTag(cl.Tags, *prop) {
+				scanOnly = false
+			}
+		}
+		for _, ac := range vc.fc.AtCalls {
+			if hasTag(ac.Cl.Tags, *prop) {
 				scanOnly = false
 			}
 		}
